@@ -78,6 +78,7 @@ Proof.
   intros s t a r. destruct a; cbn; auto.
   - destruct (chan_closed op s c); reflexivity.
   - destruct (flag_set op s x); reflexivity.
+  - destruct (flag_set op s x); reflexivity.
 Qed.
 
 Lemma tops_step : forall s i s', pos_inv op template s -> tops_ok s ->
